@@ -64,7 +64,8 @@ KEYCH = "abcdefghijklmnopqrstuvwxyz0123456789_"
 VALS = ["simple", "with: colon", "a:b:c", "url http://x.y/z?q=1", "# hash",
         "time 12:30:05", "k : v", "Version 2.1 (beta)", "x" * 40,
         "dashes -- two", "comma, separated", "tab\tinside", "100%", ":lead",
-        "trail:"]
+        "trail:", "tooling in C#", "see issue #", "# starts with hash",
+        "ends with dash -", "(parenthesised)", "quote \" inside"]
 FORMATS = ["%0.5f", "%0.2f", "%0.8f", "%0.12f", "%.6e", "%0.3f"]
 MODES = ["plain", "zip_csv", "zip_zip", "zip_noext", "member"]
 
@@ -349,8 +350,12 @@ class World:
                        for r in self.store.values()):
                     member = mdir + lname + ".csv"   # really the same member
                 marg = member if cs.flip("m.str", 60) else Path(member)
+                # an explicit compress flag is documented to be ignored when
+                # an archive is supplied
+                ck = cs.choice("compress_with_archive", [None, True, False])
+                kw2 = dict(kw) if ck is None else dict(kw, compress=ck)
                 csvmod.write_csv(df, marg, comment, src, archive=arc["zf"],
-                                 **kw)
+                                 **kw2)
                 rec.update(archive=aname, member=member)
                 arc["members"].append(lname)
             else:
@@ -360,8 +365,13 @@ class World:
                        "zip_noext": ""}[mode]
                 fpath = d / (lname + ext)
                 farg = self.path_arg(fpath, "fn")
-                csvmod.write_csv(df, farg, comment, src,
-                                 compress=(mode != "plain"), **kw)
+                if cs.flip("kwstyle", 35):
+                    csvmod.write_csv(data=df, source_file=src, comment=comment,
+                                     filename=farg,
+                                     compress=(mode != "plain"), **kw)
+                else:
+                    csvmod.write_csv(df, farg, comment, src,
+                                     compress=(mode != "plain"), **kw)
                 rec.update(dir=str(d), path=str(fpath))
         except Violation:
             raise
